@@ -73,8 +73,8 @@ func genStream(t *rapid.T, label string, max int) [][]byte {
 
 func TestC07(t *testing.T) {
 	rec := ev.Get("C07")
-	rec.Rule("first hello accepted (sealed, C03 generator) or passed through, then a client record stream (types 20-23; lengths weighted on 0 (application data), 1, 16383, 16384 and 16385..16640 for type 23), a backend stream (optional ServerHello, then records) split at drawn points over Write calls, a chunk schedule for transport reads (1 byte .. whole flight), caller buffer sizes 1..70000, and optionally a transport cut (EOF or error) at a drawn offset after the first record; in an eighth of the cases the backend's first record is a HelloRetryRequest and the client stream continues with (change_cipher_spec and) a well-formed retried hello, expected as its reconstructed inner hello followed by exactly the rest; in a sixth of the cases the transport's write side fails at a drawn offset (the error must surface, with only a prefix of the backend's bytes delivered); in a third of the cases the reads of a second, unrelated accepted connection are interleaved (connections share nothing). Oracle: concat(Read) == rewritten hello || rest up to the cut, error only after all bytes; transport writes are a prefix of backend writes with less than one complete record withheld; Write returns (len,nil). distinct = (schedule hash, cut, record lengths); non-trivial = a record straddles two chunks or two writes")
-	rec.Mandatory("chunks_1byte", "cut_in_header", "cut_in_body", "record_len0", "record_gt16384", "accepted", "passthrough", "backend_split", "nontrivial", "neighbour_conn", "hrr_then_retried_hello", "transport_write_fails")
+	rec.Rule("first hello accepted (sealed, C03 generator) or passed through, then a client record stream (types 20-23; lengths weighted on 0 (application data), 1, 16383, 16384 and 16385..16640 for type 23), a backend stream (optional ServerHello, then records) split at drawn points over Write calls, a chunk schedule for transport reads (1 byte .. whole flight), caller buffer sizes 1..70000, and optionally a transport cut (EOF or error, reported on its own or together with the last bytes) at a drawn offset after the first record; in an eighth of the cases the backend's first record is a HelloRetryRequest and the client stream continues with (change_cipher_spec and) a well-formed retried hello, expected as its reconstructed inner hello followed by exactly the rest; in a sixth of the cases the transport's write side fails at a drawn offset (the error must surface, with only a prefix of the backend's bytes delivered); in a third of the cases the reads of a second, unrelated accepted connection are interleaved (connections share nothing). Oracle: concat(Read) == rewritten hello || rest up to the cut, error only after all bytes; transport writes are a prefix of backend writes with less than one complete record withheld; Write returns (len,nil). distinct = (schedule hash, cut, record lengths); non-trivial = a record straddles two chunks or two writes")
+	rec.Mandatory("chunks_1byte", "cut_in_header", "cut_in_body", "record_len0", "record_gt16384", "accepted", "passthrough", "backend_split", "nontrivial", "neighbour_conn", "hrr_then_retried_hello", "transport_write_fails", "end_error_with_last_bytes")
 	rapid.Check(t, func(t *rapid.T) {
 		accepted := rapid.Bool().Draw(t, "accepted")
 		var first, wantFirst []byte
@@ -209,6 +209,11 @@ func TestC07(t *testing.T) {
 			cl = append(cl, "transport_write_fails")
 		}
 		wfailed := false
+		if rapid.Bool().Draw(t, "err_with_data") {
+			// the transport reports its end together with the last bytes (n > 0 and err != nil)
+			tr.ErrWithData = true
+			cl = append(cl, "end_error_with_last_bytes")
+		}
 		chunkMode := rapid.IntRange(0, 3).Draw(t, "chunk_mode")
 		switch chunkMode {
 		case 0:
@@ -433,11 +438,13 @@ func TestC07CutSweep(t *testing.T) {
 		}
 		chunk := []int{0, 1, 3}[rapid.IntRange(0, 2).Draw(t, "chunk")]
 		bufsize := []int{1, 5, 64, 4096}[rapid.IntRange(0, 3).Draw(t, "bufsize")]
+		errWithData := rapid.Bool().Draw(t, "err_with_data")
 		for cut := len(first); cut <= len(first)+len(rest); cut++ {
 			for _, endErr := range []error{io.EOF, wire.ErrInjected} {
 				stream := append(append([]byte{}, first...), rest[:cut-len(first)]...)
 				want := append(append([]byte{}, wantFirst...), rest[:cut-len(first)]...)
 				tr := wire.New(stream, endErr)
+				tr.ErrWithData = errWithData
 				if chunk > 0 {
 					tr.SetChunks(nil, chunk)
 				}
